@@ -246,6 +246,65 @@ def c10_bounded(tier="quick", seed=0):
     return out
 
 
+# ---- bounded: consumers that loop over matches come to an end WITHOUT a time limit ------------------------------------------
+LOOP_PATTERNS = ["^a", "^", "$", "a$", "\\b", "\\B", "(?=a)", "(?!a)", "(?<=a)", "(?<!a)", "a*", "a*?", "(?:)", "^a|b", "^\\s*", "(^a)", "(?:^a)+", "^a*", "$|^", "a|", "|a", "(a)|^", "x*$", "^$", "\\b|\\B", "[^]", ".", ".*", ".*?", "(.)\\1*"]
+LOOP_SUBJECTS = ["aaa", "", "a\nb", "ab ab", "\n\n", "xaax"]
+LOOP_FLAGS = ["g", "gm", "gy", "y", "gi", "gs", "gmy", ""]
+LOOP_USES = ["S.replace(r, 'x')", "S.replace(r, function () { return 'y' })", "S.match(r)", "S.split(r)", "S.replaceAll(new RegExp(r.source, r.flags.indexOf('g') < 0 ? r.flags + 'g' : r.flags), 'z')",
+             # (an exec loop over EMPTY matches does not advance by itself in ECMAScript either: it stops at the first empty match here)
+             "var n = 0, m; while ((m = r.exec(S)) && m[0] !== '' && n < 200) n++; n", "var n = 0, m; while ((m = r.exec(S)) && m[0] !== '' && r.test(S) && n < 200) n++; n", "S.search(r)", "S.split(r, 3)"]
+
+
+def _loop_chunk(pats):
+    import json, signal, time
+    from microjs import Context
+
+    def boom(*a):
+        raise TimeoutError("hang")
+    signal.signal(signal.SIGPROF, boom)
+    bad, n = [], 0
+    for pat in pats:
+        for fl in LOOP_FLAGS:
+            for subj in LOOP_SUBJECTS:
+                for use in LOOP_USES:
+                    if "while" in use and not ("g" in fl or "y" in fl):
+                        continue          # (a regex without g/y matches at the same place every time: such a loop is the script's)
+                    src = f"var S = {json.dumps(subj)}; var r = new RegExp({json.dumps(pat)}, {json.dumps(fl)}); var out; try {{ out = ['ok', {use.split('; ')[-1] if 'while' not in use else 'null'}] }} catch (e) {{ out = ['err', e.name] }} out"
+                    if "while" in use:
+                        src = f"var S = {json.dumps(subj)}; var r = new RegExp({json.dumps(pat)}, {json.dumps(fl)}); var out; try {{ {use}; out = ['ok', n] }} catch (e) {{ out = ['err', e.name] }} out"
+                    n += 1
+                    signal.setitimer(signal.ITIMER_PROF, 10)
+                    try:
+                        got = Context().eval(src)         # no time limit: the work must end by itself
+                        if got[0] == "ok" and "while" in use and got[1] >= 200:
+                            bad.append((src, "the exec/test loop over a global or sticky regex never sees null (200 iterations on a subject of at most 5 characters)"))
+                    except TimeoutError:
+                        bad.append((src, "still running after 10 s of CPU time without a time limit"))
+                    except BaseException as e:  # noqa
+                        bad.append((src, "escaped eval: " + type(e).__name__ + ": " + str(e)[:60]))
+                    finally:
+                        signal.setitimer(signal.ITIMER_PROF, 0)
+                    if len(bad) > 3:
+                        return n, bad
+    return n, bad
+
+
+@groups.group(id="C10.bounded.match-loops-end", prop="C10", kind="B", functions=["microjs.regex.vm:RegexVM.search", "microjs.regex.regex:RegExp.exec", "microjs.vm:VM._make_string_method"])
+def c10_match_loops_end(tier="quick", seed=0):
+    """consumers that go from match to match (global replace / match / split / replaceAll, exec and test loops over global and
+    sticky regexes) end on their own -- without any time limit -- for anchored, empty-matching and look-around patterns under
+    every flag combination: a search that ignores where it was asked to start, or an empty match that does not advance,
+    is an endless loop that only a time limit would stop"""
+    import multiprocessing as mp
+    pats = LOOP_PATTERNS
+    with mp.get_context("fork").Pool(15) as pool:
+        rs = pool.map(_loop_chunk, [pats[i::15] for i in range(15)])
+    bad = [b for _, bs in rs for b in bs]
+    tot = sum(c for c, _ in rs)
+    return [ob("C10.bounded.match-loops-end", not bad, "B", f"{tot} (pattern, flags, subject, consumer) cases end without a time limit" if not bad else f"{bad[0][0][:200]} -> {bad[0][1]}",
+               witness=(bad[0][0] if bad else None), confirmed=True if bad else None, domain=tot)]
+
+
 # ---- bounded: what a construction may cost before it is refused ----------------------------------------------------------
 def _construct_case(pat):
     import tracemalloc, time, resource
